@@ -11,6 +11,18 @@ VERIF_REPO=$wt PYTHONPATH=$wt/src VERIF_EVIDENCE_DIR=/tmp/seed_ev VERIF_REPLAY_D
 rc=${PIPESTATUS[0]}
 git -C /repo worktree remove --force "$wt"
 # generated model parts were re-translated from the mutated worktree: restore the committed copies
-git -C "${VERIF_HOME:-/verif}" checkout -- lean/CogentModel/Gen
+# (re-translate from the UNCHANGED /repo rather than `git checkout`, so that a builder's uncommitted translator work is kept)
+( cd "${VERIF_HOME:-/verif}" && PYTHONPATH="${VERIF_HOME:-/verif}" PYTHONDONTWRITEBYTECODE=1 /venv/bin/python -W ignore - "$prop" <<'PY'
+import importlib, sys
+from harness import common
+m = importlib.import_module("harness." + sys.argv[1].lower())
+if hasattr(m, "generate"):
+    ctx = common.Ctx(sys.argv[1], "quick", 0)
+    try:
+        m.generate(ctx)
+    finally:
+        ctx.cleanup()
+PY
+) >/dev/null 2>&1
 echo "seedtest prop=$prop patch=$patch rc=$rc"
 exit $rc
